@@ -538,8 +538,17 @@ static inline struct ubuf *ubuf_block_splice(struct ubuf *ubuf, int offset,
                                              int size)
 {
     struct ubuf *new_ubuf;
-    if (unlikely(ubuf->mgr->signature != UBUF_ALLOC_BLOCK ||
-                 (ubuf = ubuf_block_get(ubuf, &offset, &size)) == NULL ||
+    if (unlikely(ubuf->mgr->signature != UBUF_ALLOC_BLOCK))
+        return NULL;
+    /* refuse requests that run past the end of the block */
+    struct ubuf_block *head_block = ubuf_block_from_ubuf(ubuf);
+    int abs_offset = offset < 0 ? offset + (int)head_block->total_size : offset;
+    int abs_size = size == -1 ? (int)head_block->total_size - abs_offset : size;
+    if (unlikely(abs_offset < 0 || abs_size < 0 ||
+                 (size_t)abs_offset + (size_t)abs_size >
+                 head_block->total_size))
+        return NULL;
+    if (unlikely((ubuf = ubuf_block_get(ubuf, &offset, &size)) == NULL ||
                  !ubase_check(ubuf_control(ubuf, UBUF_SPLICE_BLOCK,
                                            &new_ubuf, offset, size))))
         return NULL;
@@ -611,6 +620,9 @@ static inline int ubuf_block_check_size(struct ubuf *ubuf,
             *size_p = block->total_size - *offset_p;
         }
     }
+    /* an offset counted from the end leaves -offset octets, no more */
+    if (unlikely(*offset_p < 0 && *size_p > -*offset_p))
+        return UBASE_ERR_INVALID;
     return UBASE_ERR_NONE;
 }
 
